@@ -521,8 +521,11 @@ func TestC12PoolRaces(t *testing.T) {
 		comp := rapid.SampledFrom([]ch.Compression{ch.CompressionDisabled, ch.CompressionLZ4, ch.CompressionLZ4, ch.CompressionZSTD, ch.CompressionLZ4HC}).Draw(rt, "compression")
 		rapid.SyncTest(rt, func(rt *rapid.T) {
 			f := &farm{}
+			// Connection-level settings shared by every client the pool dials; the slice has spare
+			// capacity, as one built with append does.
+			shared := append(make([]ch.Setting, 0, 8), ch.SettingInt("max_threads", 2), ch.Setting{Key: "s", Value: "v", Important: true})
 			p, err := chpool.New(context.Background(), chpool.Options{
-				ClientOptions:   ch.Options{Dialer: f, Logger: zap.NewNop(), ReadTimeout: 50 * time.Millisecond, Compression: comp},
+				ClientOptions:   ch.Options{Dialer: f, Logger: zap.NewNop(), ReadTimeout: 50 * time.Millisecond, Compression: comp, Settings: shared, QuotaKey: "qk"},
 				MaxConnLifetime: 20 * time.Millisecond, MaxConnIdleTime: 5 * time.Millisecond, HealthCheckPeriod: time.Millisecond,
 				MaxConns: int32(maxConns), MinConns: 1,
 			})
@@ -560,7 +563,16 @@ func TestC12PoolRaces(t *testing.T) {
 								stale = stale[1:]
 							}
 						default:
-							_ = p.Do(ctx, ch.Query{Body: k})
+							q := ch.Query{Body: k}
+							if (w+i)%2 == 0 {
+								// per-query settings, parameters and an unnamed external table
+								q.Settings = []ch.Setting{ch.SettingInt("max_execution_time", 1000+w), {Key: "k", Value: fmt.Sprint(i)}}
+								q.Parameters = []proto.Parameter{{Key: "p", Value: fmt.Sprint(w)}}
+								var ext proto.ColUInt8
+								ext.Append(uint8(w))
+								q.ExternalData = proto.Input{{Name: "e", Data: &ext}}
+							}
+							_ = p.Do(ctx, q)
 						}
 						cancel()
 					}
